@@ -5,7 +5,7 @@ CONSTANTS
   TagLens = {0, 63, 64, 65}
   TagHex = {"lower", "upper", "mixed", "nonhex", "zeros"}
   TagPfx = {"0x", "0X", "none", "0x0x", "0x0X"}
-  Suffixes = {"none", "/p", "?q", "#f"}
+  Suffixes = {"none", "/p", "?q", "#f", "#", "?"}
   Entries = {"parse", "core", "serde"}
   Pairs = 1
 INVARIANTS CanonIsLower Emit
